@@ -5,6 +5,7 @@ import (
 	"fmt"
 	"reflect"
 	"regexp"
+	"sync"
 
 	"github.com/graphql-go/graphql/language/ast"
 )
@@ -926,6 +927,7 @@ type Enum struct {
 	values       []*EnumValueDefinition
 	valuesLookup map[interface{}]*EnumValueDefinition
 	nameLookup   map[string]*EnumValueDefinition
+	lookupOnce   sync.Once
 
 	err error
 }
@@ -1051,27 +1053,29 @@ func (gt *Enum) Error() error {
 	return gt.err
 }
 func (gt *Enum) getValueLookup() map[interface{}]*EnumValueDefinition {
-	if len(gt.valuesLookup) > 0 {
-		return gt.valuesLookup
-	}
-	valuesLookup := map[interface{}]*EnumValueDefinition{}
-	for _, value := range gt.Values() {
-		valuesLookup[value.Value] = value
-	}
-	gt.valuesLookup = valuesLookup
+	gt.ensureLookups()
 	return gt.valuesLookup
 }
 
 func (gt *Enum) getNameLookup() map[string]*EnumValueDefinition {
-	if len(gt.nameLookup) > 0 {
-		return gt.nameLookup
-	}
-	nameLookup := map[string]*EnumValueDefinition{}
-	for _, value := range gt.Values() {
-		nameLookup[value.Name] = value
-	}
-	gt.nameLookup = nameLookup
+	gt.ensureLookups()
 	return gt.nameLookup
+}
+
+// ensureLookups builds both lookup tables exactly once. They are built on
+// first use, which can happen on several goroutines at once when a fresh
+// schema starts serving requests, so the construction must be synchronised.
+func (gt *Enum) ensureLookups() {
+	gt.lookupOnce.Do(func() {
+		valuesLookup := map[interface{}]*EnumValueDefinition{}
+		nameLookup := map[string]*EnumValueDefinition{}
+		for _, value := range gt.Values() {
+			valuesLookup[value.Value] = value
+			nameLookup[value.Name] = value
+		}
+		gt.valuesLookup = valuesLookup
+		gt.nameLookup = nameLookup
+	})
 }
 
 // InputObject Type Definition
